@@ -1586,6 +1586,7 @@ def check_C12(case):
         w = Wavefunction(v.copy())
     cur = v.copy()
     flat = lambda x: np.array(x, dtype=complex).reshape(-1)
+    TOL = 1.1e-5        # the library's own criterion is numpy.isclose(sum, 1.0): |sum - 1| <= 1e-5 + 1e-8; an accepted state may sit anywhere inside it
     for step in range(r.randint(1, 10)):
         i = r.randrange(2 ** n) if r.random() < 0.7 else -r.randint(1, 2 ** n)
         kind = r.choice(["phase", "same", "scale", "zero", "slice_swap", "slice_bad", "big"])
@@ -1623,7 +1624,7 @@ def check_C12(case):
             accepted = False
         now = flat(w.amplitudes)
         if accepted:
-            if abs(np.sum(np.abs(new) ** 2) - 1) > 1e-6:
+            if abs(np.sum(np.abs(new) ** 2) - 1) > TOL:
                 return False, f"step {step} ({kind}) accepted although the squared magnitudes then sum to {np.sum(np.abs(new) ** 2)}"
             if not np.array_equal(now, new):
                 return False, f"step {step} ({kind}) accepted but the vector is not the updated one"
@@ -1633,10 +1634,10 @@ def check_C12(case):
                 return False, "unreachable"
             if not np.array_equal(now, before):
                 return False, f"step {step} ({kind}) was rejected but changed the vector from {before} to {now}"
-        if abs(np.sum(np.abs(now) ** 2) - 1) > 1e-6:
+        if abs(np.sum(np.abs(now) ** 2) - 1) > TOL:
             return False, f"after step {step} ({kind}) the squared magnitudes sum to {np.sum(np.abs(now) ** 2)}"
     p = flat(w.get_probabilities()).real
-    if not np.allclose(p, np.abs(cur) ** 2, atol=1e-12) or abs(sum(p) - 1) > 1e-6:
+    if not np.allclose(p, np.abs(cur) ** 2, atol=1e-12) or abs(sum(p) - 1) > TOL:
         return False, "probabilities are not the squared magnitudes"
     if storage != "flat":
         return True, "ok"
